@@ -48,3 +48,20 @@ Theorem C11_emission_main : forall s es rel,
 Proof. exact ok_C11_emission_model. Qed.
 Theorem C11_oracle_implies_emission : forall c, ok_C11 c = true -> ok_C11_emission c = true.
 Proof. exact ok_C11_implies_emission. Qed.
+
+(** C11_main: for every valid set-up and EVERY valid event list the model's own
+    trace satisfies the COMPLETE oracle ok_C11 - (a) every emitted Announce
+    reflects the data sets; (b) an Announce from the parent received on the
+    slave port replaces parentDS / currentDS / timePropertiesDS by its contents
+    (stepsRemoved + 1) unless the path-trace rule (own identity in the path, or
+    more than 128 entries) discards it, in which case nothing changes; (c) after
+    a BMCA run that leaves no slave but some master port the instance shows the
+    grandmaster view (stepsRemoved 0, parent = own attributes, free-running time
+    properties).  (c) rests on the case analysis of a BMCA run: either every
+    recommendation is M1 / M2 / P1 (own clock better than Ebest, or class <= 127)
+    or the port whose Erbest is Ebest is recommended S1 and ends up slave. *)
+From SV Require Import Port.MainC11b.
+Theorem C11_main : forall s es rel,
+  setup_valid s -> Forall event_valid es ->
+  exists i o, init s = Ok (i, o) /\ ok_C11 (mkCase s es rel (Some o) (run i es)) = true.
+Proof. exact ok_C11_model. Qed.
